@@ -108,6 +108,26 @@ func genPlan(t *rapid.T, tier string) any {
 		p.Sched = gen.Sched(t, 600)
 		return p
 	}
+	if rapid.IntRange(0, 7).Draw(t, "restoretemplate") == 0 {
+		// an index entry whose output file is gone is re-stored (possibly by two writers) while others look it up
+		id := 0
+		a := rapid.IntRange(0, nc-1).Draw(t, "restorecontent")
+		p.Prefix = []Op{{Kind: "put", ID: id, Content: a}, {Kind: "dropdata", Content: a}}
+		look := rapid.SampledFrom([]string{"getbytes", "getfile"}).Draw(t, "restorelook")
+		p.Tasks = []TaskPlan{
+			{Proc: 1, Ops: []Op{{Kind: rapid.SampledFrom([]string{"put", "putreader"}).Draw(t, "restorewriter"), ID: id, Content: a}}},
+			{Proc: 2, Ops: []Op{{Kind: "getbytes", ID: id}, {Kind: look, ID: id}}},
+			{Proc: 3, Ops: []Op{{Kind: look, ID: id}, {Kind: "getbytes", ID: id}}},
+		}
+		if rapid.Bool().Draw(t, "restoretwo") {
+			p.Tasks = append(p.Tasks, TaskPlan{Proc: 2, Ops: []Op{{Kind: "putreader", ID: id, Content: a}}})
+		}
+		p.Torn = rapid.Bool().Draw(t, "torn")
+		p.ReadChunk = rapid.SampledFrom([]int{64, 512, 4096, 65536}).Draw(t, "readchunk")
+		p.Chunk = rapid.SampledFrom([]int{100, 4096, 1 << 20}).Draw(t, "chunk")
+		p.Sched = gen.Sched(t, 200)
+		return p
+	}
 	if rapid.IntRange(0, 7).Draw(t, "trimtemplate") == 0 {
 		// a writer, a trimming process and a reader meet: the Trim scans while the Put's output exists but is incomplete
 		id := 0
